@@ -183,6 +183,45 @@ def sweeps(tier, rng):
             finally:
                 sys.setrecursionlimit(limit)
             yield (("generated", "COLR", "paint-chain", depth), failure)
+    def run_damaged_resave():
+        """a font with one damaged table, loaded and saved without touching anything: every table -- the damaged one and all the
+        others -- comes out as it went in (head: checkSumAdjustment aside)"""
+        from fontTools.ttLib.sfnt import SFNTReader, SFNTWriter
+        fonts = corpus.pick(rng, [p_ for p_ in corpus.binaries((".ttf", ".otf")) if os.path.getsize(p_) < 200000], 5 if tier == "quick" else 40)
+        for path in fonts:
+            data = open(path, "rb").read()
+            try:
+                r = SFNTReader(io.BytesIO(data)); tabs = {t: r[t] for t in r.keys()}
+            except Exception:
+                continue
+            if "head" not in tabs: continue
+            plans = [("head", ln) for ln in (0, 3, 6, 8, 11)] + [(rng.choice(sorted(tabs)), None) for _ in range(2)]
+            for tag, ln in plans:
+                t2 = dict(tabs)
+                t2[tag] = tabs[tag][:ln] if ln is not None else tabs[tag][:rng.randint(0, max(0, len(tabs[tag]) - 1))]
+                failure = None
+                try:
+                    b = io.BytesIO(); w = SFNTWriter(b, len(t2), r.sfntVersion)
+                    for t in sorted(t2): w[t] = t2[t]
+                    w.close(); damaged = b.getvalue()
+                    r2 = SFNTReader(io.BytesIO(damaged))
+                    for t in sorted(t2):
+                        got = r2[t]
+                        same = got == t2[t] if not (t == "head" and len(t2[t]) >= 12) else (got[:8] == t2[t][:8] and got[12:] == t2[t][12:])
+                        if not same: failure = "writing a font whose %r table is cut to %d bytes changed table %r" % (tag, len(t2[tag]), t); break
+                    if failure is None:
+                        for lazy in (True, None):
+                            f = TTFont(io.BytesIO(damaged), lazy=lazy, recalcTimestamp=False, recalcBBoxes=False)
+                            out = io.BytesIO(); f.save(out, reorderTables=rng.choice([None, False]))
+                            r3 = SFNTReader(io.BytesIO(out.getvalue()))
+                            for t in sorted(t2):
+                                got = r3[t]
+                                same = got == t2[t] if not (t == "head" and len(t2[t]) >= 12) else (got[:8] == t2[t][:8] and got[12:] == t2[t][12:])
+                                if not same: failure = "re-saving (untouched, lazy=%r) a font whose %r table is cut to %d bytes changed table %r" % (lazy, tag, len(t2[tag]), t); break
+                            if failure: break
+                except Exception as e:
+                    if not isinstance(e, TTLibError): failure = "a font whose %r table is cut to %d bytes: %r" % (tag, len(t2[tag]), e)
+                yield ((corpus.rel(path), "damaged-resave", tag, len(t2[tag])), failure)
     def run_failed_save():
         tmp = tempfile.mkdtemp(prefix="fvC20_")
         try:
@@ -272,7 +311,7 @@ def sweeps(tier, rng):
         finally:
             shutil.rmtree(tmp, ignore_errors=True)
     return [Sweep("container-damage", run_containers), Sweep("ignore-decompile-errors", run_ignore_errors),
-            Sweep("failed-save", run_failed_save), Sweep("data-only", run_canary)]
+            Sweep("damaged-resave", run_damaged_resave), Sweep("failed-save", run_failed_save), Sweep("data-only", run_canary)]
 
 def classify(sweep, case, failure):
     if sweep == "container-damage" and isinstance(case, tuple):
